@@ -52,7 +52,7 @@ def gen_script(rng, nclients=None, policy=None, track=None, auth=None, length=No
     kinds = [0, 1, 2, 3] + ([4] if periodic else [])
     timeout = timeout or 10000
     lines = ["cfg policy=%s auth=%s track=%d nclients=%d timeout=%d%s%s" % (policy, auth, int(track), nclients, timeout, " rel=1" if rel else "",
-                                                                                 " mismatch=%d" % mismatch if mismatch is not None else ""),
+                                                                                 (" mismatch=%d mkind=%s" % (mismatch, rng.choice(["event", "bundle", "priority", "independent"]))) if mismatch is not None else ""),
              "start", "sframe 0 10"]
     wd = World()
     seq = [0]
